@@ -1,4 +1,5 @@
 import GtirbModel.Forest
+import GtirbModel.Slices
 /-! Line protocol and snapshot for model C. The snapshot printed after every
 operation is the complete observable state (DESIGN.md Appendix C); the
 implementation-side driver prints the same line from the real objects. -/
@@ -181,6 +182,15 @@ def driverStep (g : G) (line : String) : G × String :=
   match fields line with
   | ["reset"] => ({}, "ok")
   | ["snap"] => (g, snapshot g)
+  | ["sliceidx", len, a, b, c] =>
+    -- `range(*slice(a, b, c).indices(len))` (for the differential test of the transcription)
+    let oi (s : String) : Option (Option Int) := if s == "-" then some none else (s.toInt?).map some
+    match len.toNat?, oi a, oi b, oi c with
+    | some n, some x, some y, some z =>
+      (g, match sliceSelected n x y z with
+          | some l => showList l
+          | none => "ValueError")
+    | _, _, _, _ => (g, "bad-op")
   | ["popempty", p, s] =>
     match p.toNat?, readSlot s with
     | some a, some b => (g, if (g.kids a b).isEmpty then "KeyError" else "bad-op")
